@@ -29,6 +29,8 @@ ARGS = {
 ATTRS = {
     "none": {}, "one_int": {"code": 42}, "nested": {"info": {"a": [1, 2], "b": None}}, "several": {"x": 1, "y": "two", "z": 3.0},
     "unserialisable": {"code": 1}, "tuple_value": {"pair": (1, "b")},
+    # (what add_note() leaves on an exception, and an application's own double-underscore name: attributes like any other)
+    "dunder_named": {"__notes__": ["seen at sensor 7", "second note"], "__origin__": "sensor 7"},
 }
 SPECIAL_ARGS = {
     "UnicodeDecodeError": ["utf-8", b"\xff\xfe", 0, 1, "invalid start byte"], "UnicodeEncodeError": ["ascii", "é", 0, 1, "ordinal not in range"],
@@ -56,6 +58,14 @@ def make_target(table):
     class Raiser(object):
         def __init__(self):
             self.armed = None
+            self.kept = None
+            self.unser_n = 0
+
+        def __getattr__(self, name):
+            # a delegating wrapper: names this object does not have are answered by the wrapped one (here: it has nothing to say)
+            if name.startswith("_"):
+                raise AttributeError(name)
+            return None
 
         def _build(self, spec):
             cls = table[spec["cls"]]
@@ -372,7 +382,7 @@ def run_shared_instance(ctx, table, rng):
 def run(ctx):
     memnet.install()
     from Pyro5 import serializers
-    ctx.rule = ("cases = (argument shape x attribute shape x call kind from Gen_Exc: 240) crossed with every Exception subclass of the library's "
+    ctx.rule = ("cases = (argument shape x attribute shape x call kind from Gen_Exc: 280) crossed with every Exception subclass of the library's "
                 "whitelist (all cases for three representative classes, a rotating subset for each of the others), a class unknown to the "
                 "receiver, and the four serializers; distinct_nontrivial = distinct (class, args, attrs, call kind, serializer)")
     ctx.assumptions = ["argument and attribute values are drawn from the lossless core (plus one tuple-valued attribute, compared modulo the "
@@ -380,8 +390,8 @@ def run(ctx):
                        "exception classes whose constructor does not accept the generated argument tuple are skipped for that tuple"]
     tlc.mc(ctx, "ExcTransport", cfg="MC_ExcTransport.cfg")
     cases = tlc.gen(ctx, "Gen_Exc", cfg="Gen_Exc.cfg")
-    if len(cases) != 240:
-        raise util.MachineryError("expected 240 cases")
+    if len(cases) != 280:
+        raise util.MachineryError("expected 280 cases")
     table = exception_classes()
     table["harness.props.c07.AppError"] = AppError
     rng = random.Random(ctx.seed + 7)
